@@ -11,8 +11,8 @@ from extract import ExtractionError
 
 POSMAP = "prqlc/prqlc/src/sql/pq/positional_mapping.rs"
 
-LABELS = ["PM1", "PM2", "PM3", "PM4", "PM5", "PM6", "PM6i", "PM7", "PM7i"]
-FUNCTIONS = ["select_arm", "aggregate_arm", "apply_active_mapping", "activate_mapping", "add_columns"]
+LABELS = ["PM8", "PM1", "PM2", "PM3", "PM4", "PM5", "PM6", "PM6i", "PM7", "PM7i"]
+FUNCTIONS = ["compute_arm", "select_arm", "aggregate_arm", "apply_active_mapping", "activate_mapping", "add_columns"]
 ANCHOR = "prqlc/prqlc/src/sql/pq/anchor.rs"
 RLIMIT = 60
 
@@ -21,12 +21,15 @@ ASSUMED = [
     {"what": "Vec::clear empties, Vec::extend_from_slice appends the slice, CId == CId compares the ids; `mapping.iter().any(|idx| *idx >= output.len())` and "
              "`mapping.iter().map(|idx| output[*idx]).collect()` are any_out_of_range() / pick(); Complexity is opaque",
      "keys": ["fn clear_cids", "fn any_out_of_range", "fn pick", "struct PositionalMapper", "struct MapShim", "fn view", "fn remove", "fn extend_from_cids", "fn cid_eq"]},
+    {"what": "rq::Compute is the skeleton {id, expr, window, is_aggregation} (field names read in ir/rq/transform.rs), rq::Transform the skeleton {Compute(..), Other}; Vec<CId>::contains compares the ids; "
+             "`&[*id]` is the one-element list", "keys": ["fn cids_contain", "fn vec_one", "struct Compute", "enum Transform"]},
 ]
 TRUSTED = [
     "oracle (C01 / C05 / C07): UNION / EXCEPT / INTERSECT pair the i-th column of the top with the i-th column of the bottom, so the list of top columns recorded for a set "
     "operation must be the columns the top pipeline outputs at that point, in output order: after a Select its list, after an Aggregate its PARTITION columns followed by its "
     "computed columns (the same rule as AnchorContext::determine_select_columns, unit select_cols DS1) - restricted to the columns that are selected",
-    "the slices drop: the Compute arm, the recording of the constraint at the set operation, compute_and_store_mapping",
+    "a computed column is an output column of the pipeline from the point where it is computed - whether or not it is a window function - unless it is listed already (PM8)",
+    "the slices drop: the recording of the constraint at the set operation, compute_and_store_mapping",
 ]
 
 PRELUDE = r"""
@@ -53,6 +56,10 @@ pub fn pick(mapping: &Vec<usize>, output: &Vec<CId>) -> (r: Vec<CId>)
     requires forall|i: int| 0 <= i < mapping@.len() ==> #[trigger] mapping@[i] < output@.len(),
     ensures r@.len() == mapping@.len(), forall|i: int| 0 <= i < mapping@.len() ==> #[trigger] r@[i] == output@[mapping@[i] as int],
 { unimplemented!() }
+pub struct Compute { pub id: CId, pub expr: OpaqueT, pub window: Option<OpaqueT>, pub is_aggregation: bool }
+pub enum Transform { Compute(Compute), Other(OpaqueT) }
+#[verifier::external_body] pub fn cids_contain(v: &Vec<CId>, c: &CId) -> (r: bool) ensures r == (exists|i: int| 0 <= i < v@.len() && (#[trigger] v@[i]).0 == c.0), { unimplemented!() }
+#[verifier::external_body] pub fn vec_one(c: CId) -> (r: Vec<CId>) ensures r@ == seq![c], { unimplemented!() }
 pub type RIId = usize;
 #[verifier::external_body] pub struct MapShim { _p: u8 }
 impl MapShim {
@@ -76,6 +83,32 @@ def _arm(X, start, name):
 
 
 def build(X):
+    # ---- the Compute arm, pattern included: which computes add their column
+    wf = X.fn(POSMAP, "compute_positional_mappings")
+    mcp = re.search(r"Transform::Compute\(", wf.text)
+    if not mcp:
+        raise ExtractionError("compute_positional_mappings: no arm `Transform::Compute(..) =>`")
+    karrow = wf.text.index("=>", mcp.start())
+    kopen = wf.text.index("{", karrow)
+    depth, kend = 0, kopen
+    while True:
+        depth += {"{": 1, "}": -1}.get(wf.text[kend], 0)
+        if depth == 0:
+            break
+        kend += 1
+    pattern, cbody = wf.text[mcp.start():karrow].strip(), wf.text[kopen:kend + 1]
+    pattern = re.sub(r"//[^\n]*\n", "\n", pattern)
+    ca = X.arm_body(POSMAP, "compute_positional_mappings", "Transform::Compute(", name="compute_arm")
+    ca.text = cbody
+    ca.rewrite_re("R5", r"\bcolumns\.contains\((\w+)\)", r"cids_contain(columns, \1)", count=None, why="Vec::contains on column ids")
+    ca.rewrite_re("R5", r"\badd_columns\(&mut columns, &\[\*(\w+)\]\)", r"add_columns(columns, &vec_one(*\1), requirements)", count=None, why="the closure add_columns with its captured `requirements`; `&[*id]` is the one-element list")
+    ca.rewrites.append({"rule": "slice", "what": "the arm `%s => { .. }` of compute_positional_mappings - pattern AND body - wrapped as `match s { <arm>, _ => () }` in fn compute_arm(columns, s, requirements)" % " ".join(pattern.split())})
+    ca.text = ("pub fn compute_arm(columns: &mut Vec<CId>, s: &Transform, requirements: Option<&Requirements>)\n"
+               "    ensures\n"
+               "        // C05 / C07: every computed column - a window function too - is an output column from here on (once)\n"
+               "        *s is Compute ==> final(columns)@ == (if exists|i: int| 0 <= i < old(columns)@.len() && (#[trigger] old(columns)@[i]).0 == s->Compute_0.id.0 { old(columns)@ }\n"
+               "            else { old(columns)@ + selected(opt_deref(requirements), seq![s->Compute_0.id]) }), // @PM8\n"
+               "{\n    match s {\n        " + pattern + " => " + ca.text + "\n        _ => (),\n    }\n}\n")
     sa = _arm(X, "Transform::Select(cids) =>", "select_arm")
     sa.text = ("pub fn select_arm(columns: &mut Vec<CId>, cids: &Vec<CId>, requirements: Option<&Requirements>)\n"
                "    ensures final(columns)@ == selected(opt_deref(requirements), cids@), // @PM1\n"
@@ -154,7 +187,7 @@ def build(X):
             // the previous instance would cut or reorder the columns of this one)
             final(self).active_positional_mapping == (if old(self).relation_positional_mapping.view().dom().contains(*riid) { Some(old(self).relation_positional_mapping.view()[*riid]) } else { None::<Vec<usize>> }), // @PM5
     """)
-    return PRELUDE + req_ty + ac0.text + "\n" + sa.text + "\n" + aa.text + "\nimpl PositionalMapper {\n" + am.text + "\n" + ac.text + "\n}\n} // verus!\nfn main() {}\n"
+    return PRELUDE + req_ty + ac0.text + "\n" + ca.text + "\n" + sa.text + "\n" + aa.text + "\nimpl PositionalMapper {\n" + am.text + "\n" + ac.text + "\n}\n} // verus!\nfn main() {}\n"
 
 
 # ----------------------------------------------------------------------------- replay on the real compiler
